@@ -108,10 +108,10 @@ theorem TokSame.tokW {nL : Nat} {t : Token} {r : Bool × Token} (h : TokSame t r
 theorem matchAny_errStep (nL : Nat) (D : List Dialect) (cap : Nat) (stop : Bool) (ks : List Kind) (t : Token)
     (ht : TokW nL t) : ErrStep nL (matchAny D cap stop ks t) := by
   induction ks generalizing t with
-  | nil => intro c r c' hr hc; rw [GV.matchAny, run_pure] at hr; cases hr; exact ⟨hc, trivial⟩
+  | nil => intro c r c' hr hc; rw [GV.matchAny, prun_pure] at hr; cases hr; exact ⟨hc, trivial⟩
   | cons k ks ih =>
     intro c r c' hr hc
-    rw [GV.matchAny, run_bind] at hr
+    rw [GV.matchAny, prun_bind] at hr
     rcases hr1 : run (matchP D cap stop k t) c with ⟨r1, c1⟩
     rw [hr1] at hr
     have h1 := matchP_errStep nL D cap stop k t ht _ _ _ hr1 hc
@@ -122,7 +122,7 @@ theorem matchAny_errStep (nL : Nat) (D : List Dialect) (cap : Nat) (stop : Bool)
       have ht' := (matchP_tok D cap stop k t c _ c1 hr1).tokW ht
       dsimp only at hr ht'
       split at hr
-      · rw [run_pure] at hr; cases hr; exact ⟨h1.1, trivial⟩
+      · rw [prun_pure] at hr; cases hr; exact ⟨h1.1, trivial⟩
       · exact ih t' ht' _ _ _ hr h1.1
 
 /-! ### transport of the invariant -/
@@ -254,15 +254,15 @@ theorem lookaheadLoop_lines (nL : Nat) (s : Prop) (D : List Dialect) (cap : Nat)
         | .error a => ThrownOK nL a := by
   intro fuel
   induction fuel with
-  | zero => intro acc c _ _ r c' h; rw [lookaheadLoop, run_throw] at h; cases h; trivial
+  | zero => intro acc c _ _ r c' h; rw [lookaheadLoop, prun_throw] at h; cases h; trivial
   | succ n ih =>
     intro acc c hacc hli r c' h
-    rw [lookaheadLoop, run_bind] at h
+    rw [lookaheadLoop, prun_bind] at h
     obtain ⟨t, c1, hr0, hread⟩ := readToken_cases c
     rw [hr0] at h
     dsimp only at h
     obtain ⟨htw, he1, hstep⟩ := li_read_step nL s c c1 t acc hacc hli hread
-    rw [run_bind] at h
+    rw [prun_bind] at h
     rcases hr1 : run (matchAny D cap stop la.expected t) c1 with ⟨r1, c2⟩
     rw [hr1] at h
     have hE1 := matchAny_errStep nL D cap stop _ t htw _ _ _ hr1 he1
@@ -275,9 +275,9 @@ theorem lookaheadLoop_lines (nL : Nat) (s : Prop) (D : List Dialect) (cap : Nat)
       have htw1 := hts1.tokW htw
       dsimp only at h htw1
       split at h
-      · rw [run_pure] at h; cases h
+      · rw [prun_pure] at h; cases h
         exact hstep t1 hts1.1 hts1.2 _ hf1 hE1.1
-      · rw [run_bind] at h
+      · rw [prun_bind] at h
         rcases hr2 : run (matchAny D cap stop la.skip t1) c2 with ⟨r2, c3⟩
         rw [hr2] at h
         have hE2 := matchAny_errStep nL D cap stop _ t1 htw1 _ _ _ hr2 hE1.1
@@ -303,16 +303,16 @@ theorem lookaheadLoop_lines (nL : Nat) (s : Prop) (D : List Dialect) (cap : Nat)
             rcases List.mem_append.1 hx with hx | hx
             · exact hacc x hx
             · simp only [List.mem_singleton] at hx; subst hx; exact hline
-          · rw [run_pure] at h; cases h
+          · rw [prun_pure] at h; cases h
             exact hstep t2 hl2 hn2 _ hf2 hE2.1
 
 theorem lookahead_lines (nL : Nat) (s : Prop) (D : List Dialect) (cap : Nat) (stop : Bool) (la : LookAhead)
     (h2 : Kind.EOF ∉ la.skip) :
     Inv (LI nL s) (fun a _ => ThrownOK nL a) (lookahead D cap stop la) := by
   refine Triple.intro fun c r c' hc hr => ?_
-  rw [lookahead, run_bind, run_get] at hr
+  rw [lookahead, prun_bind, run_get] at hr
   dsimp only at hr
-  rw [run_bind] at hr
+  rw [prun_bind] at hr
   rcases hl : run (lookaheadLoop D cap stop la (c.queue.length + c.lines.length + 2) []) c with ⟨r1, c1⟩
   rw [hl] at hr
   have := lookaheadLoop_lines nL s D cap stop la h2 _ [] c (fun _ hx => by cases hx)
@@ -322,9 +322,9 @@ theorem lookahead_lines (nL : Nat) (s : Prop) (D : List Dialect) (cap : Nat) (st
   | ok r1 =>
     obtain ⟨m, read⟩ := r1
     dsimp only at hr this
-    rw [run_bind, run_modify] at hr
+    rw [prun_bind, run_modify] at hr
     dsimp only at hr
-    rw [run_pure] at hr
+    rw [prun_pure] at hr
     cases hr
     exact this
 
